@@ -340,7 +340,7 @@ def moment_session(w, ses, gc, evid):
         ev = ph.mesh.eigenvectors
         gamma = (np.array(ph.mesh.frequencies[ig[0]]), None if ev is None else np.abs(np.array(ev[ig[0]])) ** 2)
     obs = []
-    prev = None
+    prev, prev_q = None, None
     for q in ses["reqs"]:
         fmin = fmin_v if q["lo"] else None
         fmax = fmax_v if q["hi"] else None
@@ -362,9 +362,10 @@ def moment_session(w, ses, gc, evid):
         o["definition"] = None if want is None else np.atleast_1d(want).tolist()
         if q["ord"] == 0:
             o["one"] = "yes" if val is not None and bool(np.abs(val - 1.0).max() < 1e-12) else "no"
-        o["stale"] = "yes" if (not ok and prev is not None and val is not None and prev.shape == val.shape
+        # stale: the value of the EARLIER, different request (an identical request legitimately repeats its value)
+        o["stale"] = "yes" if (not ok and prev is not None and val is not None and prev_q != q and prev.shape == val.shape
                                and np.array_equal(prev, val)) else "no"
-        prev = val
+        prev, prev_q = val, q
         obs.append(o)
     return dict(id=evid, entry=w.entry, gc=gc, ses=ses, obs=obs, window=[fmin_v, fmax_v])
 
